@@ -9,7 +9,7 @@ chk("C11", "exploration", "exhaustive enumeration + online reference-codec oracl
     "DESIGN.md 3/C11")
 chk("C02", "exploration", "exhaustive configuration-matrix enumeration + table-model monitor + primitive hook, under ASan/UBSan",
     "The finite matrix provider x route (setkey / four callback variants / three setkey histories: refused call after an admitted one, admitted after admitted / a preset key replaced by the callback / a callback whose alg changes between two uses of one object) x configured alg (16) x key (absent + every family) x key alg "
-    "attribute (absent, every name, unknown) x public/private x header alg variant (50, incl. names with an escaped NUL and spellings a lenient parser would take for a real name: 'RS 256', 'RS+256', 'RS0256', ' HS256') x signature kind (empty, garbage, valid, "
+    "attribute (absent, every name, unknown) x public/private x header alg variant (64, incl. unregistered names that follow the pattern of the registered ones (HS128, RS640, ES512K), names with an escaped NUL and spellings a lenient parser would take for a real name: 'RS 256', 'RS+256', 'RS0256', ' HS256') x signature kind (empty, garbage, valid, "
     "HMAC under empty / public-PEM / zero keys) is enumerated (thorough: completely; quick: reduced axes), each setkey/verify/"
     "generate call is logged at the API boundary and judged offline by a 40-line table model; the LIBJWT_VERIF hook shows which "
     "alg/key actually reached each crypto primitive.",
@@ -17,7 +17,7 @@ chk("C02", "exploration", "exhaustive configuration-matrix enumeration + table-m
     "returns are unjudged. Providers not compiled (MbedTLS) are not covered.", "DESIGN.md 3/C02")
 chk("C03", "exploration", "exhaustive configuration x token-shape enumeration + predicate monitor under ASan/UBSan",
     "Every checker/builder configuration (10 routes incl. setkey and callback histories x explicit alg x key x key alg attribute x public/private) is crossed with "
-    "every token shape (50 header-alg variants x 7 third-segment shapes); the monitor asserts the four clauses of the statement "
+    "every token shape (64 header-alg variants x 7 third-segment shapes); the monitor asserts the four clauses of the statement "
     "on each logged call and requires positive controls (alg-none accepted key-less, signed tokens accepted/produced).",
     "Trusted: harness token builder/decoder. A callback that withdraws a key is unjudged.", "DESIGN.md 3/C03")
 chk("C09", "exploration", "exhaustive key-size x algorithm enumeration + floor monitor + primitive hook under ASan/UBSan",
